@@ -420,16 +420,27 @@ fn call(fun: Func, args: &[Node], at: Decimal) -> R {
             if vs.is_empty() {
                 return RV::Val(Decimal::ZERO, Q::Exact);
             }
-            let mut s = Decimal::ZERO;
+            let n = Decimal::from(vs.len() as i64);
+            let mut s = Some(Decimal::ZERO);
             for v in &vs {
-                match s.checked_add(*v) {
-                    Some(t) => s = t,
-                    None => return RV::Unspec("U3: intermediate overflow inside avg"),
-                }
+                s = s.and_then(|t| t.checked_add(*v));
             }
-            let v = s / Decimal::from(vs.len() as i64);
+            let v = match s {
+                Some(t) => t / n,
+                None => {
+                    // only the sum overflows: the mean of the scaled terms (each rounded at 28 digits)
+                    let mut m = Some(Decimal::ZERO);
+                    for v in &vs {
+                        m = m.and_then(|t| t.checked_add(*v / n));
+                    }
+                    match m {
+                        Some(m) => m,
+                        None => return RV::Unspec("U3: the mean itself does not fit"),
+                    }
+                }
+            };
             match q {
-                Q::Exact => RV::Val(v, Q::Tol(1e-27 * f(v).abs().max(1.0))),
+                Q::Exact => RV::Val(v, Q::Tol(1e-27 * f(v).abs().max(1.0) + if s.is_none() { vs.len() as f64 } else { 0.0 })),
                 _ => RV::Val(v, Q::Skip),
             }
         }
@@ -448,7 +459,16 @@ fn call(fun: Func, args: &[Node], at: Decimal) -> R {
                             _ => RV::Val(v, Q::Skip),
                         }
                     }
-                    None => RV::Unspec("U3: intermediate overflow inside med"),
+                    None => {
+                        // only the sum overflows
+                        match (s[l / 2] / Decimal::TWO).checked_add(s[l / 2 - 1] / Decimal::TWO) {
+                            Some(v) => match q {
+                                Q::Exact => RV::Val(v, Q::Tol(1e-27 * f(v).abs().max(1.0) + 1.0)),
+                                _ => RV::Val(v, Q::Skip),
+                            },
+                            None => RV::Unspec("U3: the mean of the middle values does not fit"),
+                        }
+                    }
                 }
             }
         }
